@@ -1,4 +1,4 @@
-from .registry import bounded
+from .registry import bounded, replayer
 
 
 @bounded('C12', 'keepalive-all-holdtimes')
@@ -20,3 +20,70 @@ def keepalive_all(tier, seed):
         'samples': [{'holdtime': h, 'keepalive': HoldTime(h).keepalive()} for h in (0, 3, 90, 65535)],
         'failures': fails,
     }
+
+
+# ---------------------------------------------------------------------------------------------------------------------
+# the scheduling half the timer contracts leave open ("how often the main loop polls the timers"): the real Peer over
+# loopback TCP (bounded/sessionharness.py) under a peer that never stops talking
+@bounded('C12', 'keepalives-under-load')
+def keepalives_under_load(tier, seed):
+    """negotiated hold time 3 s (KEEPALIVE every second, RFC 4271 4.4: a third of the hold time); the remote sends an
+    UPDATE or a KEEPALIVE every 40 ms for 3.6 s, so the main loop never has an idle turn; ExaBGP must still send its own
+    KEEPALIVEs (at least 2 in that window), and must not drop the session (the remote never lets the hold time pass)"""
+    import asyncio
+    from . import sessionharness as S
+    from spec import wire as W
+
+    async def scenario(kind):
+        sess = S.Session()
+        inp = {'scenario': f'hold time 3, peer sends {kind} every 40 ms for 3.6 s'}
+        try:
+            try:
+                await sess.to_state('ESTABLISHED', peer_open=S.open_msg(hold=3))
+            except RuntimeError as e:
+                return {'what': f'harness: {e}', 'input': inp, 'harness': True}
+            attrs = W.origin(0) + W.as_path([65002], True) + W.next_hop('192.0.2.1')
+            before = len([e for e in sess.log if e[0] == 'sent' and e[2] == 4])
+            t0 = asyncio.get_event_loop().time()
+            n = 0
+            while asyncio.get_event_loop().time() - t0 < 3.6:
+                n += 1
+                if kind == 'updates':
+                    await sess.remote.send(S.msg(2, W.update_body(b'', attrs, bytes([24, 10, n & 255, (n >> 8) & 255]))))
+                else:
+                    await sess.remote.send(S.KEEPALIVE)
+                await asyncio.sleep(0.04)
+                # drain what ExaBGP writes so that its socket never blocks
+                try:
+                    while True:
+                        d = sess.remote.sock.recv(65536)
+                        if not d:
+                            break
+                except (BlockingIOError, OSError):
+                    pass
+            kas = len([e for e in sess.log if e[0] == 'sent' and e[2] == 4]) - before
+            nots = [e for e in sess.log if e[0] == 'sent' and e[2] == 3]
+            sess.peer.teardown(2)
+            await sess.finish(timeout=4)
+            if nots:
+                return {'what': f'the session was dropped (NOTIFICATION {nots[0][3][0]}/{nots[0][3][1]}) although the peer never was silent', 'input': inp}
+            if kas < 2:
+                return {'what': f'{kas} KEEPALIVE sent in 3.6 s with a negotiated hold time of 3 s (one per second is due): the peer would time the session out', 'input': inp}
+            return None
+        finally:
+            sess.cleanup()
+
+    fails = []
+    for kind in ('updates', 'keepalives'):
+        f = S.run(scenario(kind), timeout=30)
+        if f and f.get('harness'):
+            raise RuntimeError(f['what'])
+        if f:
+            fails.append(f)
+    return {'evaluations': 2, 'distinct_nontrivial': 2, 'bound': 'two 3.6 s sessions of the real Peer with a negotiated hold time of 3 s under a peer sending every 40 ms', 'rule': 'one case = one kind of load', 'samples': [{'load': 'updates'}], 'failures': fails}
+
+
+@replayer('C12', 'keepalives-under-load')
+def _replay_load(f):
+    r = keepalives_under_load('quick', 1)
+    return not any(x['input'] == f['input'] for x in r['failures'])
